@@ -250,21 +250,6 @@ get_isowk(unsigned int y)
 	return 52;
 }
 
-static unsigned int
-ywd_get_yday(unsigned int y, int w, int d)
-{
-/* since everything is in ISO 8601 format, getting the doy is a matter of
- * counting how many days there are in a week. */
-	/* this one's special as it needs the hang helper slot */
-	echs_wday_t j01 = get_jan01_wday(y);
-	int hang = ywd_get_jan01_hang(j01);
-
-	if (UNLIKELY(w < 0)) {
-		w += 1 + get_isowk(y);
-	}
-	return 7U * (w - 1) + d + hang;
-}
-
 static struct md_s
 yd_to_md(unsigned int y, int doy)
 {
@@ -303,21 +288,6 @@ yd_to_md(unsigned int y, int doy)
 	}
 	return (struct md_s){m, d};
 #undef GET_REM
-}
-
-static struct md_s
-ywd_to_md(unsigned int y, int w, echs_wday_t d)
-{
-	unsigned int yday = ywd_get_yday(y, w, d);
-	struct md_s res = yd_to_md(y, yday);
-
-	if (UNLIKELY(res.m == 0)) {
-		res.m = 12;
-		res.d--;
-	} else if (UNLIKELY(res.m == 13)) {
-		res.m = 1;
-	}
-	return res;
 }
 
 static unsigned int
@@ -493,25 +463,52 @@ fill_yly_ywd(
 	bitint383_t *restrict cand, unsigned int y,
 	const bitint63_t woy, const bitint447_t *dow)
 {
+/* A day counts for the (ISO) week it lies in, so apart from the weeks
+ * of ISO year Y the days of calendar year Y can be in the last week of
+ * ISO year Y-1 (early January) or in week 1 of ISO year Y+1 (late
+ * December); days of Y's weeks that lie in other calendar years are
+ * candidates of those years, not of Y. */
+	const int ylen = 365 + !(y % 4U);
 	int wk;
 
 	for (bitint_iter_t wki = 0UL;
 	     (wk = bi63_next(&wki, woy), wki);) {
-		/* ywd */
-		int dc;
+		for (int iy = (int)y - 1; iy <= (int)y + 1; iy++) {
+			const int nwk = get_isowk(iy);
+			const int w = wk > 0 ? wk : wk + 1 + nwk;
+			int hang, off, dc;
 
-		for (bitint_iter_t dowi = 0UL;
-		     (dc = bi447_next(&dowi, dow), dowi);) {
-			struct md_s md;
-			echs_wday_t wd;
-
-			if (dc <= MIR || (wd = (echs_wday_t)dc) > SUN) {
+			if (w <= 0 || w > nwk) {
+				/* no such week in that year */
 				continue;
-			} else if (!(md = ywd_to_md(y, wk, wd)).m) {
+			} else if (iy < (int)y && w < nwk ||
+				   iy > (int)y && w > 1) {
+				/* can't reach into Y */
 				continue;
 			}
-			/* otherwise it's looking good */
-			ass_bi383(cand, pack_cand(md.m, md.d));
+			hang = ywd_get_jan01_hang(get_jan01_wday(iy));
+			/* offset of ISO year IY's 00 Jan to Y's 00 Jan */
+			off = iy < (int)y
+				? -(365 + !(iy % 4U)) : iy > (int)y ? ylen : 0;
+
+			for (bitint_iter_t dowi = 0UL;
+			     (dc = bi447_next(&dowi, dow), dowi);) {
+				struct md_s md;
+				int yd;
+
+				if (dc <= MIR || dc > SUN) {
+					continue;
+				}
+				yd = 7 * (w - 1) + dc + hang + off;
+				if (yd <= 0 || yd > ylen) {
+					/* some other year's business */
+					continue;
+				} else if (!(md = yd_to_md(y, yd)).m) {
+					continue;
+				}
+				/* otherwise it's looking good */
+				ass_bi383(cand, pack_cand(md.m, md.d));
+			}
 		}
 	}
 	return;
